@@ -164,6 +164,7 @@ def check_class(model, cname, res):
     speed_of = {}
     for t in terms:
         ev = NFEval(keys)
+        ev.interior_clamps = True      # a clamped cosine is the cosine away from the (anti)parallel ray
         # dot products of the term
         dots = [m for m in _walk(t) if dot_args(m, inputs) is not None]
         var = {}            # variable atom key -> (affine a, affine b)
@@ -303,6 +304,7 @@ def check_class(model, cname, res):
         res.evaluations += 1
         res.nontrivial += 1
         ev = NFEval(keys)
+        ev.interior_clamps = True      # a clamped cosine is the cosine away from the (anti)parallel ray
         dots = [m for root in (a, c) for m in _walk(root) if dot_args(m, inputs) is not None]
         dk = {}
         for m in dots:
@@ -379,6 +381,7 @@ def shadow_continuity(model, res):
         return n
     shadow_n, los_n = val(shadow_n), val(los_n)
     ev = NFEval(keys)
+    ev.interior_clamps = True
     # base variables
     S_, Q_, N_ = ev.atom('param:PP'), ev.atom('param:Pc'), None
     consts = {}
@@ -448,6 +451,7 @@ def shadow_continuity(model, res):
     qstar = ev.mul(cosA, ev.power(slope, ev.S.F(-1)))
     # evaluate with q := q*
     ev2 = NFEval(keys)
+    ev2.interior_clamps = True
     ev2.memo.update({})
     # rebuild the same substitutions in a fresh evaluator, with Pc replaced
     sy = NFSym(ev)
@@ -511,6 +515,7 @@ def branch_continuity(model, res, tier='quick'):
     data, names = sol.args[0], (sol.args[1] if len(sol.args) > 1 else sol.kw.get('names'))
     field = [d for a, d in zip(names.args, data.args) if a.val == 'burntime'][0]
     ev = NFEval(keys)
+    ev.interior_clamps = True
     S_, Q_ = ev.atom('param:PP'), ev.atom('param:Pc')
     consts = {}
     for m in b.trace:
